@@ -27,14 +27,18 @@
 (*                   a.com/* answered for a.com.evil.net/x)                                 *)
 (*   EmptyParam      TRUE: the parametric child also takes an EMPTY URL part ("a.com//y" for  *)
 (*                   "a.com/{p}/y", p = ""); FALSE: a parameter needs a non-empty segment   *)
+(*   RejectCollision TRUE: a declared URL that reaches an existing constant child of the   *)
+(*                   other kind (host label vs path segment of the same text: a.com.x vs   *)
+(*                   a.com/x) is refused - the configuration is not loaded; FALSE: the     *)
+(*                   insert walks into that node (before the fix: both URLs on one node)   *)
 EXTENDS UrlPattern, TLC
 
-CONSTANTS ReuseOnLookup, FabricatedNorm, WildHostCheck, EmptyParam
+CONSTANTS ReuseOnLookup, FabricatedNorm, WildHostCheck, EmptyParam, RejectCollision
 
 PARAM  == "{}"
 NoNode == <<"-">>
 
-EmptyTree == [nodes |-> {<<>>}, host |-> (<<>> :> FALSE), pname |-> <<>>, val |-> (<<>> :> 0)]
+EmptyTree == [nodes |-> {<<>>}, host |-> (<<>> :> FALSE), pname |-> <<>>, val |-> (<<>> :> 0), err |-> FALSE]
 
 HasNode(t, n) == n \in t.nodes
 AddNode(t, n, h) == [t EXCEPT !.nodes = @ \cup {n}, !.host = (n :> h) @@ @, !.val = (n :> 0) @@ @]
@@ -54,7 +58,9 @@ Insert(t0, parts, addr) ==
                 IF HasNode(t, Append(cur, PARAM)) THEN Go(t, i + 1, Append(cur, PARAM))
                 ELSE Go([AddNode(t, Append(cur, PARAM), pt.h) EXCEPT !.pname = (cur :> ParamName(pt.v)) @@ @],
                         i + 1, Append(cur, PARAM))
-            ELSE IF HasNode(t, Append(cur, pt.v)) THEN Go(t, i + 1, Append(cur, pt.v))
+            ELSE IF HasNode(t, Append(cur, pt.v)) THEN
+                     IF RejectCollision /\ t.host[Append(cur, pt.v)] # pt.h THEN [t EXCEPT !.err = TRUE]
+                     ELSE Go(t, i + 1, Append(cur, pt.v))
                  ELSE Go(AddNode(t, Append(cur, pt.v), pt.h), i + 1, Append(cur, pt.v))
     IN Go(t0, 1, <<>>)
 
@@ -122,7 +128,8 @@ BuildStep(st, ds, k) ==
     IN [t |-> Insert(st.t, parts, addr), maps |-> maps2, addrOf |-> (k :> addr) @@ st.addrOf]
 
 RECURSIVE BuildFrom(_, _, _)
-BuildFrom(st, ds, k) == IF k > Len(ds) THEN st ELSE BuildFrom(BuildStep(st, ds, k), ds, k + 1)
+BuildFrom(st, ds, k) == IF k > Len(ds) \/ st.t.err THEN st ELSE BuildFrom(BuildStep(st, ds, k), ds, k + 1)
+Rejected(st) == st.t.err
 Build(ds) == BuildFrom([t |-> EmptyTree, maps |-> <<>>, addrOf |-> <<>>], ds, 1)
 
 \* ---- getRemedies / getDiagnoses (one enabled remedy and one diagnosis per declaration) ----
